@@ -1,6 +1,6 @@
 (* C17 -- the registry while a run is going on: well-formedness, which plugins an action leaves alone, the walks *)
-From Coq Require Import NArith Arith Bool List Lia.
-From CppUVerif Require Import gen.Gen_Common C17_Model C17_Proofs.
+From Coq Require Import NArith Arith Bool List Lia Permutation.
+From CppUVerif Require Import gen.Gen_Common C17_Model C17_Proofs C17_Links.
 Import ListNotations.
 
 (* ================================================================= the model's registry is the textbook registry *)
@@ -37,10 +37,33 @@ Proof.
 Qed.
 
 (* ================================================================= well-formed registries *)
+(* every plugin object that exists: the chain, then the objects outside it *)
+Definition all (r : reg) : list plugin := r_chain r ++ r_out r.
+
 Record wf (r : reg) : Prop := {
-  wf_lt : forall p, In p (r_chain r) -> p_id p < r_next r;
-  wf_nodup : NoDup (map p_id (r_chain r));
-  wf_names : forall p, In p (r_chain r) -> In (p_id p, p_name p) (r_names r) }.
+  wf_all_lt : forall p, In p (all r) -> p_id p < r_next r;
+  wf_all_nodup : NoDup (map p_id (all r));
+  wf_all_names : forall p, In p (all r) -> In (p_id p, p_name p) (r_names r) }.
+
+Lemma nodup_app_head {A} (a b : list A) : NoDup (a ++ b) -> NoDup a.
+Proof.
+  induction a as [|x a IH]; cbn [app]; intro H; [constructor|]. inversion H as [|y ys Hn Hd]; subst. constructor; [|apply IH; exact Hd].
+  intro Hin. apply Hn. apply in_or_app. left. exact Hin.
+Qed.
+
+Lemma nodup_app_disj {A B} (g : A -> B) (a b : list A) x y : NoDup (map g (a ++ b)) -> In x a -> In y b -> g x <> g y.
+Proof.
+  induction a as [|z a IH]; cbn [app map]; intros H Hx Hy; [destruct Hx|]. inversion H as [|w ws Hn Hd]; subst.
+  destruct Hx as [->|Hx]; [|apply IH; assumption].
+  intro E. apply Hn. rewrite E. apply in_map. apply in_or_app. right. exact Hy.
+Qed.
+
+Lemma wf_lt r : wf r -> forall p, In p (r_chain r) -> p_id p < r_next r.
+Proof. intros H p Hp. apply (wf_all_lt _ H). apply in_or_app. left. exact Hp. Qed.
+Lemma wf_nodup r : wf r -> NoDup (map p_id (r_chain r)).
+Proof. intro H. pose proof (wf_all_nodup _ H) as Hn. unfold all in Hn. rewrite map_app in Hn. apply (nodup_app_head _ _ Hn). Qed.
+Lemma wf_names r : wf r -> forall p, In p (r_chain r) -> In (p_id p, p_name p) (r_names r).
+Proof. intros H p Hp. apply (wf_all_names _ H). apply in_or_app. left. exact Hp. Qed.
 
 Lemma wf_init : wf init_reg.
 Proof. split; cbn; [intros p []|constructor|intros p []]. Qed.
@@ -53,6 +76,21 @@ Proof.
   apply in_map_iff. exists y. split; [exact Hy|apply Hin].
 Qed.
 
+Lemma nodup_map_filter_tail {A B} (f : A -> B) (g : A -> bool) a b : NoDup (map f (a ++ b)) -> NoDup (map f (a ++ filter g b)).
+Proof.
+  induction a as [|x a IH]; cbn [app map]; intro H; [apply nodup_map_filter; exact H|]. inversion H as [|y ys Hn Hd]; subst.
+  constructor; [|apply IH; exact Hd]. intro Hin. apply Hn. apply in_map_iff in Hin. destruct Hin as [z [Ez Hz]].
+  apply in_map_iff. exists z. split; [exact Ez|]. apply in_app_or in Hz. apply in_or_app. destruct Hz as [Hz|Hz]; [left; exact Hz|right].
+  apply filter_In in Hz. apply Hz.
+Qed.
+
+Lemma partition_perm {A} (f : A -> bool) l : Permutation (filter (fun x => negb (f x)) l ++ filter f l) l.
+Proof.
+  induction l as [|a l IH]; [constructor|]. cbn [filter]. destruct (f a); cbn [negb app].
+  - apply Permutation_sym. apply Permutation_cons_app. apply Permutation_sym. exact IH.
+  - constructor. exact IH.
+Qed.
+
 Lemma set_on_ids i b c : map p_id (set_on i b c) = map p_id c.
 Proof. unfold set_on. rewrite map_map. apply map_ext. intro p. destruct (Nat.eqb (p_id p) i); reflexivity. Qed.
 
@@ -61,33 +99,64 @@ Proof.
   unfold set_on. intro H. apply in_map_iff in H. destruct H as [q [Hq Hin]]. exists q. split; [exact Hin|].
   destruct (Nat.eqb (p_id q) i); subst p; split; reflexivity.
 Qed.
+Lemma set_on_app i b c o : set_on i b c ++ set_on i b o = set_on i b (c ++ o).
+Proof. unfold set_on. rewrite map_app. reflexivity. Qed.
+
+Lemma find_id_some i c p : find_id i c = Some p -> In p c /\ p_id p = i.
+Proof. unfold find_id. intro H. apply find_some in H. destruct H as [H1 H2]. split; [exact H1|apply Nat.eqb_eq; exact H2]. Qed.
 
 Lemma wf_install r p : wf r -> p_id p = r_next r -> wf (reg_install r p).
 Proof.
-  intros [Hlt Hnd Hnm] Hid. split; cbn [reg_install r_chain r_next r_names].
+  intros [Hlt Hnd Hnm] Hid. split; unfold all in *; cbn [reg_install r_chain r_next r_names r_out app].
   - intros q [<-|Hq]; [lia|]. specialize (Hlt q Hq). lia.
   - cbn [map]. constructor; [|exact Hnd]. intro Hin. apply in_map_iff in Hin. destruct Hin as [q [Hq Hin]].
     specialize (Hlt q Hin). lia.
   - intros q [<-|Hq]; [left; reflexivity|right; apply Hnm; exact Hq].
 Qed.
 
+(* a registry over the same objects (possibly with other flags, possibly moved between the chain and the outside) *)
+Lemma wf_sub r r' : wf r -> r_next r' = r_next r -> r_names r' = r_names r ->
+  (forall p, In p (all r') -> exists q, In q (all r) /\ p_id p = p_id q /\ p_name p = p_name q) ->
+  NoDup (map p_id (all r')) -> wf r'.
+Proof.
+  intros [Hlt Hnd Hnm] En Em Hsub Hnd'. split.
+  - intros p Hp. destruct (Hsub p Hp) as [q [Hq [E _]]]. rewrite En, E. apply Hlt. exact Hq.
+  - exact Hnd'.
+  - intros p Hp. destruct (Hsub p Hp) as [q [Hq [E1 E2]]]. rewrite Em, E1, E2. apply Hnm. exact Hq.
+Qed.
+
 Lemma wf_act r a : wf r -> wf (reg_act without r a).
 Proof.
-  intro H. destruct a as [n k|n|i|i|]; cbn [reg_act].
+  intro H. destruct a as [n k|n|i|i| |i]; cbn [reg_act].
   - apply wf_install; [exact H|reflexivity].
-  - destruct H as [Hlt Hnd Hnm]. split; cbn [reg_chain r_chain r_next r_names].
-    + intros p Hp. apply Hlt. unfold without in Hp. apply filter_In in Hp. apply Hp.
-    + apply nodup_map_filter. exact Hnd.
-    + intros p Hp. apply Hnm. unfold without in Hp. apply filter_In in Hp. apply Hp.
-  - destruct H as [Hlt Hnd Hnm]. split; cbn [reg_chain r_chain r_next r_names].
-    + intros p Hp. destruct (set_on_in _ _ _ _ Hp) as [q [Hq [E _]]]. rewrite E. apply Hlt. exact Hq.
-    + rewrite set_on_ids. exact Hnd.
-    + intros p Hp. destruct (set_on_in _ _ _ _ Hp) as [q [Hq [E1 E2]]]. rewrite E1, E2. apply Hnm. exact Hq.
-  - destruct H as [Hlt Hnd Hnm]. split; cbn [reg_chain r_chain r_next r_names].
-    + intros p Hp. destruct (set_on_in _ _ _ _ Hp) as [q [Hq [E _]]]. rewrite E. apply Hlt. exact Hq.
-    + rewrite set_on_ids. exact Hnd.
-    + intros p Hp. destruct (set_on_in _ _ _ _ Hp) as [q [Hq [E1 E2]]]. rewrite E1, E2. apply Hnm. exact Hq.
-  - split; cbn [reg_chain r_chain r_next r_names]; [intros p []|constructor|intros p []].
+  - assert (Hp : Permutation (without n (r_chain r) ++ filter (named n) (r_chain r) ++ r_out r) (all r)).
+    { unfold all. rewrite app_assoc. apply Permutation_app_tail. apply partition_perm. }
+    apply (wf_sub r _ H); try reflexivity; unfold all at 1; cbn [reg_set r_chain r_out].
+    + intros p Hp'. exists p. split; [apply (Permutation_in _ Hp Hp')|split; reflexivity].
+    + apply (Permutation_NoDup (Permutation_sym (Permutation_map p_id Hp))). apply (wf_all_nodup _ H).
+  - apply (wf_sub r _ H); try reflexivity; unfold all at 1; cbn [reg_set r_chain r_out]; rewrite set_on_app.
+    + intros p Hp. apply (set_on_in _ _ _ _ Hp).
+    + rewrite set_on_ids. apply (wf_all_nodup _ H).
+  - apply (wf_sub r _ H); try reflexivity; unfold all at 1; cbn [reg_set r_chain r_out]; rewrite set_on_app.
+    + intros p Hp. apply (set_on_in _ _ _ _ Hp).
+    + rewrite set_on_ids. apply (wf_all_nodup _ H).
+  - apply (wf_sub r _ H); try reflexivity; unfold all at 1; cbn [reg_set r_chain r_out app].
+    + intros p Hp. exists p. split; [exact Hp|split; reflexivity].
+    + apply (wf_all_nodup _ H).
+  - destruct (find_id i (r_out r)) as [p|] eqn:Ef.
+    + destruct (find_id_some _ _ _ Ef) as [Hin Eid].
+      apply (wf_sub r _ H); try reflexivity; unfold all at 1; cbn [reg_set r_chain r_out app].
+      * intros q [<-|Hq]; [exists p; split; [apply in_or_app; right; exact Hin|split; reflexivity]|].
+        exists q. split; [|split; reflexivity]. apply in_app_or in Hq. apply in_or_app. destruct Hq as [Hq|Hq]; [left; exact Hq|right].
+        unfold take_id in Hq. apply filter_In in Hq. apply Hq.
+      * cbn [map]. constructor.
+        -- intro Hq. apply in_map_iff in Hq. destruct Hq as [q [Eq Hq]]. apply in_app_or in Hq. destruct Hq as [Hq|Hq].
+           ++ apply (nodup_app_disj p_id (r_chain r) (r_out r) q p (wf_all_nodup _ H) Hq Hin). exact Eq.
+           ++ unfold take_id in Hq. apply filter_In in Hq. destruct Hq as [_ Hq]. rewrite Eq, Eid, Nat.eqb_refl in Hq. discriminate Hq.
+        -- unfold take_id. apply nodup_map_filter_tail. apply (wf_all_nodup _ H).
+    + apply (wf_sub r _ H); try reflexivity; unfold all at 1; cbn [reg_set r_chain r_out].
+      * intros p Hp. exists p. split; [exact Hp|split; reflexivity].
+      * apply (wf_all_nodup _ H).
 Qed.
 
 Lemma wf_acts l : forall rT, wf (fst rT) -> wf (fst (tb_acts rT l)).
@@ -96,10 +165,88 @@ Proof.
   apply IH. cbn [tb_step fst]. apply wf_act. exact H.
 Qed.
 
+(* ================================================================= the links follow the chain *)
+(* the chain read from firstPlugin_ through the next_ links is the chain level's chain, and every object carries its name *)
+Definition linked (r : reg) : Prop :=
+  path (l_objs (r_lnk r)) (l_first (r_lnk r)) (map p_id (r_chain r)) /\
+  forall p, In p (all r) -> oname (l_objs (r_lnk r)) (p_id p) = p_name p.
+
+Lemma linked_init : linked init_reg.
+Proof. split; [reflexivity|intros p []]. Qed.
+
+Lemma chain_short r : wf r -> length (r_chain r) <= r_next r.
+Proof.
+  intro H. rewrite <- (map_length p_id), <- (seq_length (r_next r) 0). apply NoDup_incl_length; [apply wf_nodup; exact H|].
+  intros i Hi. apply in_map_iff in Hi. destruct Hi as [p [<- Hp]]. apply in_seq. pose proof (wf_lt _ H p Hp). lia.
+Qed.
+
+Lemma read_linked r : wf r -> linked r -> read_chain r = map p_id (r_chain r).
+Proof.
+  intros Hw [P _]. unfold read_chain, remove_fuel. rewrite (path_read _ _ _ _ P); [reflexivity|].
+  rewrite map_length. pose proof (chain_short r Hw). lia.
+Qed.
+
+Lemma linked_install r p : wf r -> linked r -> p_id p = r_next r -> linked (reg_install r p).
+Proof.
+  intros Hw [P Hn] Hid. split; unfold all in *; cbn [reg_install r_chain r_out r_lnk l_install l_new l_objs l_first map app].
+  - apply path_install.
+    + intro Hin. apply in_map_iff in Hin. destruct Hin as [q [Eq Hq]]. pose proof (wf_lt _ Hw q Hq). lia.
+    + apply (path_ext (l_objs (r_lnk r))); [|exact P]. intros j Hj. apply nxt_new_other.
+      apply in_map_iff in Hj. destruct Hj as [q [Eq Hq]]. pose proof (wf_lt _ Hw q Hq). lia.
+  - intros q Hq. rewrite oname_set. destruct Hq as [<-|Hq]; [apply oname_new_same|].
+    rewrite oname_new_other; [apply Hn; exact Hq|]. pose proof (wf_all_lt _ Hw q Hq). lia.
+Qed.
+
+(* one action whose re-install (if it is one) names an object outside the chain *)
+Lemma linked_act r a : wf r -> linked r -> act_ok r a = true -> linked (reg_act without r a).
+Proof.
+  intros Hw HL Hok. pose proof HL as [P Hn]. destruct a as [n k|n|i|i| |i]; cbn [reg_act].
+  - apply linked_install; [exact Hw|exact HL|reflexivity].
+  - destruct (remove_links n (r_chain r) (r_lnk r) (remove_fuel r) P (wf_nodup _ Hw)) as [L' [R1 [R2 [R3 _]]]].
+    + intros p Hp. apply Hn. apply in_or_app. left. exact Hp.
+    + unfold remove_fuel. pose proof (chain_short r Hw). lia.
+    + rewrite R1. split; unfold all; cbn [reg_set r_chain r_out r_lnk].
+      * rewrite <- remove_by_name_without. exact R2.
+      * intros p Hp. rewrite R3. apply Hn. rewrite app_assoc in Hp. apply in_app_or in Hp. apply in_or_app.
+        destruct Hp as [Hp|Hp]; [left|right; exact Hp]. apply (Permutation_in _ (partition_perm (named n) (r_chain r))). exact Hp.
+  - split; unfold all; cbn [reg_set r_chain r_out r_lnk].
+    + rewrite set_on_ids. exact P.
+    + rewrite set_on_app. intros p Hp. destruct (set_on_in _ _ _ _ Hp) as [q [Hq [E1 E2]]]. rewrite E1, E2. apply Hn. exact Hq.
+  - split; unfold all; cbn [reg_set r_chain r_out r_lnk].
+    + rewrite set_on_ids. exact P.
+    + rewrite set_on_app. intros p Hp. destruct (set_on_in _ _ _ _ Hp) as [q [Hq [E1 E2]]]. rewrite E1, E2. apply Hn. exact Hq.
+  - split; unfold all; cbn [reg_set r_chain r_out r_lnk l_reset l_first l_objs map path app]; [reflexivity|exact Hn].
+  - cbn [act_ok] in Hok. unfold reinst_ok in Hok. destruct (find_id i (r_out r)) as [p|] eqn:Ef; [|discriminate Hok].
+    destruct (find_id_some _ _ _ Ef) as [Hin Eid].
+    assert (Hlt : i <? r_next r = true).
+    { apply Nat.ltb_lt. rewrite <- Eid. apply (wf_all_lt _ Hw). apply in_or_app. right. exact Hin. }
+    rewrite Hlt. split; unfold all; cbn [reg_set r_chain r_out r_lnk l_install l_objs l_first map].
+    + rewrite Eid. apply path_install; [|exact P]. intro Hq. apply in_map_iff in Hq. destruct Hq as [q [Eq Hq]].
+      apply (nodup_app_disj p_id (r_chain r) (r_out r) q p (wf_all_nodup _ Hw) Hq Hin). rewrite Eq, Eid. reflexivity.
+    + intros q Hq. rewrite oname_set. apply Hn. destruct Hq as [<-|Hq]; [apply in_or_app; right; exact Hin|].
+      apply in_app_or in Hq. apply in_or_app. destruct Hq as [Hq|Hq]; [left; exact Hq|right]. unfold take_id in Hq. apply filter_In in Hq. apply Hq.
+Qed.
+
+Lemma acts_ok_app l1 : forall r l2, acts_ok r (l1 ++ l2) = acts_ok r l1 && acts_ok (fst (tb_acts (r, []) l1)) l2.
+Proof.
+  assert (G : forall l r T l2, acts_ok r (l ++ l2) = acts_ok r l && acts_ok (fst (tb_acts (r, T) l)) l2).
+  { induction l as [|a l IH]; intros r T l2; cbn [app acts_ok]; [reflexivity|]. unfold tb_acts. cbn [fold_left tb_step fst snd].
+    rewrite (IH _ (touched_by (r_names r) (r_next r) a ++ T)). rewrite andb_assoc. reflexivity. }
+  intros r l2. apply G.
+Qed.
+
+(* any history of installs, removals by name, enables, disables, resets and re-installs of objects that are outside the chain
+   at that moment: the links are the chain *)
+Lemma linked_acts l : forall r T, wf r -> linked r -> acts_ok r l = true -> linked (fst (tb_acts (r, T) l)).
+Proof.
+  induction l as [|a l IH]; intros r T Hw HL Hok; [exact HL|]. cbn [acts_ok] in Hok. apply andb_true_iff in Hok. destruct Hok as [H1 H2].
+  unfold tb_acts. cbn [fold_left tb_step fst snd]. apply IH; [apply wf_act; exact Hw|apply linked_act; assumption|exact H2].
+Qed.
+
 (* ================================================================= what an action leaves alone *)
 Lemma keeps_in r a p : In p (r_chain r) -> keeps a p = true -> In p (r_chain (reg_act without r a)).
 Proof.
-  intros Hin Hk. destruct a as [n k|n|i|i|]; cbn [reg_act reg_install reg_chain r_chain keeps] in *.
+  intros Hin Hk. destruct a as [n k|n|i|i| |i]; cbn [reg_act reg_install reg_set r_chain keeps] in *.
   - right. exact Hin.
   - unfold without. apply filter_In. split; assumption.
   - unfold set_on. apply in_map_iff. exists p. split; [|exact Hin].
@@ -107,6 +254,7 @@ Proof.
   - unfold set_on. apply in_map_iff. exists p. split; [|exact Hin].
     apply negb_true_iff in Hk. rewrite Nat.eqb_sym, Hk. reflexivity.
   - discriminate Hk.
+  - destruct (find_id i (r_out r)); cbn [reg_set r_chain]; [right|]; exact Hin.
 Qed.
 
 Lemma keeps_in_acts l p : forall rT, In p (r_chain (fst rT)) -> forallb (fun a => keeps a p) l = true ->
@@ -119,7 +267,7 @@ Qed.
 
 Lemma untouched_keeps nm nx a p : In (p_id p, p_name p) nm -> ~ In (p_id p) (touched_by nm nx a) -> keeps a p = true.
 Proof.
-  intros Hn Hu. destruct a as [n k|n|i|i|]; cbn [touched_by keeps] in *.
+  intros Hn Hu. destruct a as [n k|n|i|i| |i]; cbn [touched_by keeps] in *.
   - reflexivity.
   - unfold named. destruct (N.eqb_spec (p_name p) n) as [E|]; [|reflexivity]. exfalso. apply Hu.
     unfold ids_named. apply in_map_iff. exists (p_id p, p_name p). split; [reflexivity|].
@@ -127,6 +275,7 @@ Proof.
   - destruct (Nat.eqb_spec i (p_id p)) as [E|]; [|reflexivity]. exfalso. apply Hu. left. exact E.
   - destruct (Nat.eqb_spec i (p_id p)) as [E|]; [|reflexivity]. exfalso. apply Hu. left. exact E.
   - exfalso. apply Hu. apply in_map_iff. exists (p_id p, p_name p). split; [reflexivity|exact Hn].
+  - destruct (Nat.eqb_spec i (p_id p)) as [E|]; [|reflexivity]. exfalso. apply Hu. left. exact E.
 Qed.
 
 Lemma find_id_in c p : NoDup (map p_id c) -> In p c -> find_id (p_id p) c = Some p.
